@@ -56,6 +56,43 @@ regenerated from cmapdb.py. -/
 def identityKind (name : String) : Option (Nat × Nat) :=
   Gen.CIDFont.IDENTITY_CMAPS.lookup name
 
+/-! ## Which CID → Unicode map a `PDFCIDFont` uses (`PDFCIDFont.__init__`) -/
+
+/-- The font's `ToUnicode` entry. -/
+inductive ToUni where
+  | stream
+  | name (n : String)
+  | absent
+deriving DecidableEq, Repr
+
+inductive MapSel where
+  | file                                             -- `FileUnicodeMap` parsed from the ToUnicode stream
+  | identity                                         -- `IdentityUnicodeMap`
+  | ttf                                              -- `TrueTypeFont.create_unicode_map()`
+  | collection (coding : String) (vertical : Bool)   -- `CMapDB.get_unicode_map(coding, vertical)`
+  | none
+deriving DecidableEq, Repr
+
+def hasInfix (p : List Char) : List Char → Bool
+  | [] => p.isEmpty
+  | c :: t => p.isPrefixOf (c :: t) || hasInfix p t
+
+def mentionsIdentity (s : String) : Bool := hasInfix "Identity".toList s.toList
+
+/-- `ordering` = CIDSystemInfo.Ordering, `cidcoding` = "Registry-Ordering", `encoding` = the Encoding name,
+`cmapVertical` = `self.cmap.is_vertical()`, `hasTTF` = a FontFile2 with a usable cmap table,
+`shipped` = the collection's pickle exists.  The tuple of TrueType collections and whether the writing mode
+is passed on are regenerated from pdffont.py. -/
+def selectUnicodeMap (tu : ToUni) (ordering cidcoding encoding : String) (hasTTF cmapVertical shipped : Bool) : MapSel :=
+  match tu with
+  | .stream => .file
+  | .name n =>
+    if mentionsIdentity ordering || mentionsIdentity n || mentionsIdentity encoding then .identity else .none
+  | .absent =>
+    if Gen.CIDFont.TTF_CODINGS.contains cidcoding then (if hasTTF then .ttf else .none)
+    else if shipped then .collection cidcoding (Gen.CIDFont.COLLECTION_MAP_USES_WMODE && cmapVertical)
+    else .none
+
 /-! ## Trie CMaps (`CMap.code2cid` is a nested dict) -/
 
 inductive Trie where
